@@ -222,6 +222,12 @@ def py_to_sx(node):
             f = Fraction(v)
             return ["n", str(f.numerator), str(f.denominator), 0]
         raise SkeletonError("constant %r" % (v,))
+    if isinstance(node, pyast.Attribute) and isinstance(node.value, pyast.Name) and node.value.id in ("numpy", "math"):
+        if node.attr == "pi":
+            return ["pi"]
+        if node.attr == "e":
+            return ["fn", "exp", ["n", "1", "1", 1]]
+        raise SkeletonError("attribute " + node.attr)
     if isinstance(node, pyast.BinOp):
         ops = {pyast.Add: "+", pyast.Sub: "-", pyast.Mult: "*", pyast.Div: "/", pyast.Pow: "^"}
         if type(node.op) is pyast.Mod:
@@ -250,6 +256,10 @@ def py_to_sx(node):
                 return ["and" if n == "logical_and" else "or", py_to_sx(args[0]), py_to_sx(args[1])]
             if n == "logical_not" and len(args) == 1:
                 return ["not", py_to_sx(args[0])]
+            if n == "sign" and len(args) == 1:
+                a = py_to_sx(args[0])
+                zero, one = ["n", "0", "1", 1], ["n", "1", "1", 1]
+                return ["if", ["rel", "gt", a, zero], one, ["if", ["rel", "lt", a, zero], ["neg", one], zero]]
         raise SkeletonError("call " + pyast.unparse(node)[:60])
     raise SkeletonError("node " + type(node).__name__)
 
@@ -343,3 +353,27 @@ def call_numpy(fn, argnames, t, states, params, dt=None, missing=None):
         else:
             raise SkeletonError("unknown formal " + a)
     return fn(**kw)
+
+
+def array_unsafe_constructs(code: str) -> list:
+    """statements of the generated module whose right-hand side uses a construct that is not
+    applied column by column by numpy (Python conditional expression, and / or / not, min / max,
+    float(), chained comparison ...): everything py_to_sx cannot translate"""
+    mod = pyast.parse(code)
+    bad = []
+    for fd in mod.body:
+        if not isinstance(fd, pyast.FunctionDef) or fd.name.endswith("_index") or fd.name.startswith("init_"):
+            continue
+        for st in fd.body:
+            if not (isinstance(st, pyast.Assign) and len(st.targets) == 1):
+                continue
+            tg = st.targets[0]
+            if isinstance(tg, pyast.Name) and tg.id in ("values", "shape"):
+                continue
+            if any(_sub_index(st.value, b) is not None for b in ("states", "parameters", "missing_variables")):
+                continue
+            try:
+                py_to_sx(st.value)
+            except SkeletonError as ex:
+                bad.append((fd.name, pyast.unparse(st)[:120], str(ex)))
+    return bad
